@@ -1,19 +1,24 @@
-// Unit slice: get_slice_range (index arithmetic of every string / array slice), verbatim.
+// Unit slice: get_slice_range (index arithmetic of every string / array slice) and do_slice_string (string
+// slicing: s[a:b:c] and std.slice on strings), verbatim.  String is bound to BStr.
 #![allow(dead_code, unused)]
 mod u {
 use std::marker::PhantomData;
+//@include shim/bstr.rs
+impl FromIterator<char> for BStr { fn from_iter<I: IntoIterator<Item = char>>(it: I) -> Self { let mut r = BStr::new(); for c in it { r.push(c); } r } }
+use self::BStr as String;
+pub enum ValueData<'p> { String(String), _P(PhantomData<&'p ()>) }
 pub type SpanId = u32;
 pub enum EvalErrorKind { Other { span: Option<SpanId>, message: &'static str } }
 pub struct EvalError { pub kind: EvalErrorKind }
 type EvalResult<T> = Result<T, Box<EvalError>>;
-pub struct Evaluator<'a, 'p> { _p: PhantomData<(&'a (), &'p ())> }
+pub struct Evaluator<'a, 'p> { value_stack: Vec<ValueData<'p>>, _p: PhantomData<(&'a (), &'p ())> }
 impl<'a, 'p> Evaluator<'a, 'p> {
     fn report_error(&self, kind: EvalErrorKind) -> Box<EvalError> { Box::new(EvalError { kind }) }
 }
 // error-message text is not part of the contract (formatting a symbolic f64 does not terminate in CBMC)
 macro_rules! format { ($($t:tt)*) => { "<message elided by shim>" } }
 
-//@extract file=rsjsonnet-lang/src/program/eval/expr.rs impl=Evaluator methods=get_slice_range
+//@extract file=rsjsonnet-lang/src/program/eval/expr.rs impl=Evaluator methods=get_slice_range,do_slice_string
 
 #[cfg(kani)]
 mod vharness {
@@ -33,7 +38,7 @@ mod vharness {
         let len: usize = kani::any();
         kani::assume(len <= 1usize << 40);
         let (start, end, step) = (opt_f64(), opt_f64(), opt_f64());
-        let mut ev = Evaluator { _p: PhantomData };
+        let mut ev = Evaluator { value_stack: Vec::new(), _p: PhantomData };
         let r = ev.get_slice_range(len, start, end, step, None);
         let valid = start.map_or(true, is_int) && end.map_or(true, is_int) && step.map_or(true, |k| is_int(k) && k >= 1.0);
         match r {
@@ -53,10 +58,43 @@ mod vharness {
         }
     }
 
+    /// string slicing against Python's s[a:b:c] on CODE POINTS, for one concrete string (symbolic text is out of
+    /// CBMC's reach) and small integer bounds
+    fn slice_string(text: &'static str, chars: &[char]) {
+        let n = chars.len();
+        // small integer bounds (a symbolic f64 bound makes Chars::advance_by's chunk loops unwind without end: measured);
+        // get_slice_range itself is proved for every f64 in slice_range_contract
+        let small = || -> Option<f64> { if kani::any() { let v: i8 = kani::any(); kani::assume(v >= -8 && v <= 8); Some(v as f64) } else { None } };
+        let (start, end) = (small(), small());
+        let step: Option<f64> = if kani::any() { let v: u8 = kani::any(); kani::assume(v <= 4); Some(v as f64) } else { None };
+        let valid = step.map_or(true, |k| k >= 1.0);
+        let mut ev = Evaluator { value_stack: Vec::with_capacity(1), _p: PhantomData };
+        let r = ev.do_slice_string(text, start, end, step, None);
+        if !valid { assert!(r.is_err(), "C18,C01:slice:error-only-for-invalid-arguments"); return; }
+        assert!(r.is_ok() && ev.value_stack.len() == 1, "C18,C01:slice:ok-only-for-valid-arguments");
+        let s0 = match start { None => 0, Some(v) => spec_bound(n, v) };
+        let e0 = match end { None => n, Some(v) => spec_bound(n, v) };
+        let k: usize = match step { None => 1, Some(v) => if v >= 16.0 { 16 } else { v as usize } };
+        let mut want = BStr::new();
+        let mut i = s0; while i < e0 { want.push(chars[i]); i += k; }
+        match &ev.value_stack[0] {
+            ValueData::String(got) => { let (g, w) = (got.as_bytes(), want.as_bytes()); assert!(g.len() == w.len(), "C18:slice:string-slice-is-the-python-slice-on-code-points"); let mut j = 0; while j < g.len() { assert!(g[j] == w[j], "C18:slice:string-slice-is-the-python-slice-on-code-points"); j += 1; } }
+            _ => assert!(false, "C18:slice:string-slice-yields-a-string"),
+        }
+    }
+    //@harness props=C18,C01 strength=bounded bound="the string 'h\u00e9llo' (5 code points, 6 bytes), start / end null or any integer in -8..8, step null or 0..4" clause="s[a:b:c] on a string counts code points for every bound, negative ones included: the result is Python's slice of the code-point sequence" timeout=900 replay=slice_string
+    #[kani::proof]
+    #[kani::unwind(20)]
+    fn slice_string_hello() { slice_string("h\u{e9}llo", &['h', '\u{e9}', 'l', 'l', 'o']); }
+    //@harness props=C18,C01 strength=bounded tier=thorough bound="the string 'a\U0001F60Eb\u20ac' (4 code points, 9 bytes), start / end null or any integer in -8..8, step null or 0..4" clause="s[a:b:c] on a string counts code points for every bound, negative ones included: the result is Python's slice of the code-point sequence" timeout=900 replay=slice_string
+    #[kani::proof]
+    #[kani::unwind(20)]
+    fn slice_string_astral() { slice_string("a\u{1F60E}b\u{20ac}", &['a', '\u{1F60E}', 'b', '\u{20ac}']); }
+
     //@harness props=C18,C01 strength=proof expect=fail clause="canary"
     #[kani::proof]
     fn slice_canary() {
-        let mut ev = Evaluator { _p: PhantomData };
+        let mut ev = Evaluator { value_stack: Vec::new(), _p: PhantomData };
         let r = ev.get_slice_range(kani::any(), opt_f64(), None, None, None);
         assert!(r.is_ok(), "canary:slice:always-ok");
     }
